@@ -69,7 +69,18 @@ let () =
       | None -> print_endline "BAD"
       | Some i ->
         let fn = String.sub line 0 i in
-        let arg = if fn = "merge" || fn = "equiv" || fn = "normdump" then [] else bytes_of_hex (String.sub line (i + 1) (String.length line - i - 1)) in
+        let arg = if fn = "merge" || fn = "equiv" || fn = "normdump" || fn = "inlinediff" || fn = "inlinerelaxed" || fn = "cssrules" then [] else bytes_of_hex (String.sub line (i + 1) (String.length line - i - 1)) in
+        if fn = "inlinediff" || fn = "inlinerelaxed" then begin
+          let rest = String.sub line (i + 1) (String.length line - i - 1) in
+          (match String.split_on_char ':' rest with
+           | [c; a; b] -> print_endline (match (if fn = "inlinediff" then Model.m_inline_diff else Model.m_inline_relaxed_diff) (bytes_of_hex c) (bytes_of_hex a) (bytes_of_hex b) with None -> "EQ" | Some n -> string_of_int (nat_to_int n))
+           | _ -> print_endline "BAD") end
+        else if fn = "cssrules" then begin
+          let arg = bytes_of_hex (String.sub line (i + 1) (String.length line - i - 1)) in
+          let rules = Model.m_parse_rules arg in
+          print_endline (String.concat "|" (List.map (fun (sels, decls) ->
+            String.concat "," (List.map hex_of_bytes sels) ^ "/" ^ String.concat "," (List.map (fun (p, v) -> hex_of_bytes p ^ "=" ^ hex_of_bytes v) decls)) rules)) end
+        else
         if fn = "normdump" then begin
           let arg = bytes_of_hex (String.sub line (i + 1) (String.length line - i - 1)) in
           print_endline (String.concat "\x01" (List.map (fun t -> String.map (fun c -> if c = '\n' then ' ' else c) (ser_ntok t)) (Model.m_norm arg))) end
